@@ -536,6 +536,10 @@ def run_jack(pe, acc, case):
                      ('einsum:implicit', lambda: L.einsum('ij,jk', A, B), lambda: L.matmul(A, B)),
                      ('einsum:implicit-transposed', lambda: L.einsum('ba,ac', A, B), lambda: L.matmul(A, B)),
                      ('einsum:implicit-kj', lambda: L.einsum('ij,kj', A, B), lambda: L.matmul(A, B.T)),
+                     # implicit output: the free labels in ALPHABETICAL order (numpy's rule), not in order of appearance
+                     ('einsum:implicit-reordered', lambda: L.einsum('kj,ji', A, B), lambda: L.matmul(A, B).T),
+                     ('einsum:implicit-single-operand', lambda: L.einsum('ji', A), lambda: A.T * 1),
+                     ('einsum:implicit-three-reordered', lambda: L.einsum('lk,kj,ji', A, B, A), lambda: L.matmul(A, B, A).T),
                      ('einsum:number', lambda: L.einsum('ij,jk->ik', A, Nm), lambda: L.matmul(A, Nm)),
                      ('einsum:trace', lambda: np.array([[L.einsum('ij,ji', A, B)]], dtype=object), lambda: (lambda P: np.array([[P[0, 0] + P[1, 1]]], dtype=object))(L.matmul(A, B)))]
             # entries mixed with plain numbers (at [0, 0], elsewhere, integer, complex) in the jackknife-based products
@@ -545,6 +549,10 @@ def run_jack(pe, acc, case):
                 progs += [('jack_matmul:mixed:%s' % mn, lambda Mx=Mx: L.jack_matmul(Mx, B), lambda Mx=Mx: L.matmul(Mx, B)),
                           ('jack_matmul:mixed-second:%s' % mn, lambda Mx=Mx: L.jack_matmul(B, Mx), lambda Mx=Mx: L.matmul(B, Mx)),
                           ('einsum:mixed:%s' % mn, lambda Mx=Mx: L.einsum('ij,jk->ik', Mx, B), lambda Mx=Mx: L.matmul(Mx, B))]
+            # the result of an exact operation on a matrix with plain numbers, handed on to the jackknife-based functions
+            progs += [('jack_matmul:after-inv-of-mixed', lambda: L.jack_matmul(L.inv(M11), B), lambda: L.matmul(L.inv(M11), B)),
+                      ('einsum:after-matmul-of-mixed', lambda: L.einsum('ij,jk', L.matmul(M00, B), B), lambda: L.matmul(L.matmul(M00, B), B)),
+                      ('jack_matmul:after-matmul-with-number-matrix', lambda: L.jack_matmul(L.matmul(Nm, A), B), lambda: L.matmul(Nm, A, B))]
         for name, f, fe in progs:
             sub = dict(case, op=name, N=N)
             if 'op' in case and case['op'] != name:
@@ -573,6 +581,9 @@ def run_jack(pe, acc, case):
                 for pn, (g, e) in zip(('real', 'imag'), parts):
                     if not isinstance(g, pe.Obs):
                         bad = 'entry %s is a %s' % (idx, type(g).__name__)
+                        break
+                    if sorted(g.names) != sorted(e.names) or sorted(e.names) != ['A|r1']:
+                        bad = 'entry %s (%s part) carries the names %s, the exact product %s, the operands A|r1' % (idx, pn, g.names, e.names)
                         break
                     if list(g.idl['A|r1']) != cfgs or type(g.idl['A|r1']) is not type(e.idl['A|r1']):
                         bad = 'entry %s (%s part): configuration list %s, operands live on %s' % (idx, pn, g.idl['A|r1'], e.idl['A|r1'])
